@@ -41,6 +41,9 @@ theorem addTemplates_names (fileName text nsName : Bytes) (nsAe : Autoescape) :
           · rename_i hdup
             exact ih _ _ _ h (nodup_snoc _ _ hn hdup)
     · exact ih _ _ _ h hn
+    · exact ih _ _ _ h hn
+    · exact ih _ _ _ h hn
+    · cases h
 
 
 end SoyVerif.Props.C06
